@@ -11,7 +11,7 @@ namespace EG
 inductive Op
   | newVertex (c : VCls) (attrs : List (Nat × Nat)) (ls : List LId) (us : List VId)
   | newUniverse (attrs : List (Nat × Nat)) (ms : List VId) (L : Option WId)
-  | newLaws
+  | newLaws (r : Nat)
   | newEdge (c : LCls) (a b : Option VId)
   | newEdgeIllTyped                       -- a constructor argument that is not a Vertex
   | newNLink (vs : List (Option VId))
@@ -78,7 +78,7 @@ def step (P : Prims) (F : Nat → LId → Option VId → Bool) (w : World) : Op 
     match newUniverse P w attrs ms L with
     | .error e => (w, .err e)
     | .ok (w', v) => (w', .vertex v)
-  | .newLaws => let (w', L) := M.allocLaws w; (w', .laws L)
+  | .newLaws r => let (w', L) := M.allocLaws w r; (w', .laws L)
   | .newEdge c a b =>
     if c.kind == .nary || !(w.ovOK a) || !(w.ovOK b) then (w, .bad) else
     match newLink P w c [a, b] with
